@@ -8,7 +8,7 @@
 (* Case: [id, kind, n, cons, hasObj, obj, ev].  Problem dumps are records   *)
 (* [n, units, cons, status] (solver.Problem) read through public fields.    *)
 (***************************************************************************)
-EXTENDS Logic, TLC, Json, IOUtils
+EXTENDS Formats, Json, IOUtils
 
 Cases == ndJsonDeserialize(IOEnv.VERIF_TRACE)
 OutFile == IOEnv.VERIF_OUT
@@ -18,6 +18,21 @@ vars == <<ci, ei, mods, bad, nev>>
 Case == Cases[ci]
 Ev == Case.ev[ei]
 N == Case.n
+
+(* A case either carries the abstract file the Go renderer printed (cons, hasObj, obj) or, when it   *)
+(* was enumerated by FormatsGen.tla, the tokens of the text (ts): its meaning is then what the        *)
+(* reference reader of Formats.tla reads from the tokens.                                             *)
+IsText(c) == Len(c.ts) > 0
+OpbOf(c) == OpbRead(c.n, c.ts)
+HasObj == IF IsText(Case) /\ Case.kind = "opb" THEN OpbOf(Case).hasObj ELSE Case.hasObj
+Obj == IF IsText(Case) /\ Case.kind = "opb" THEN OpbOf(Case).obj ELSE Case.obj
+TextOf(c) == IF c.kind = "cnf" THEN CnfText(c.n, c.m, c.ts) ELSE OpbText(c.n, c.m, c.ts)
+TextWF(c) == IF c.kind = "cnf" THEN CnfRead(c.n, c.m, c.ts).wf ELSE OpbOf(c).wf
+(* the bytes fed to the parser are the rendering of the tokens, and the tokens are a well-formed text *)
+TextWhy(e) == IF ~IsText(Case) THEN ""
+              ELSE IF ~TextWF(Case) THEN "harness:text-not-well-formed"
+              ELSE IF e.text # TextOf(Case) THEN "harness:text-not-the-rendering-of-its-tokens"
+              ELSE ""
 
 DumpModels(d) ==
   IF d.status = "UNSAT" THEN {}
@@ -38,9 +53,9 @@ ParseWhy(e) ==
   IF e.panic THEN "parse-panic"
   ELSE IF e.err THEN "parse-error-on-well-formed-text"
   ELSE IF ~SameModels(e.d, mods, N, Case.kind # "opb") THEN "parse-models-differ"
-  ELSE IF Case.hasObj /\ mods # {} /\ (~e.hasObjD \/ ~ObjVarsOK(e.objD, N)) THEN "parse-objective-lost"
-  ELSE IF Case.hasObj /\ ~SameCost(mods, Case.obj, e.objD) THEN "parse-cost-differs"
-  ELSE IF ~Case.hasObj /\ e.hasObjD THEN "parse-objective-invented"
+  ELSE IF HasObj /\ mods # {} /\ (~e.hasObjD \/ ~ObjVarsOK(e.objD, N)) THEN "parse-objective-lost"
+  ELSE IF HasObj /\ ~SameCost(mods, Obj, e.objD) THEN "parse-cost-differs"
+  ELSE IF ~HasObj /\ e.hasObjD THEN "parse-objective-invented"
   ELSE ""
 
 (* explain.ParseCNF: dump [n, nb, clauses] *)
@@ -78,8 +93,9 @@ EPrintWhy(e) ==
 (* (Status Unsat after parsing) is printed without any unsatisfiable constraint              *)
 KFPrint(e, w) == IF w = "print-models-differ" /\ e.orig.status = "UNSAT" THEN "kf:print-of-unsat-problem:" \o w ELSE w
 
-Why == CASE Ev.op = "parse"   -> ParseWhy(Ev)
-         [] Ev.op = "eparse"  -> EParseWhy(Ev)
+First(a, b2) == IF a # "" THEN a ELSE b2
+Why == CASE Ev.op = "parse"   -> First(TextWhy(Ev), ParseWhy(Ev))
+         [] Ev.op = "eparse"  -> First(TextWhy(Ev), EParseWhy(Ev))
          [] Ev.op = "print"   -> KFPrint(Ev, PrintWhy(Ev))
          [] Ev.op = "eprint"  -> EPrintWhy(Ev)
          [] Ev.op = "skip"    -> ""
@@ -87,7 +103,9 @@ Why == CASE Ev.op = "parse"   -> ParseWhy(Ev)
          [] Ev.op = "timeout" -> "timeout"
          [] OTHER             -> "unknown-event"
 
-M0(c) == Models(c.n, AsWrittenAll(c.cons))
+M0(c) == IF ~IsText(c) THEN Models(c.n, AsWrittenAll(c.cons))
+         ELSE IF c.kind = "cnf" THEN ClauseModels(c.n, CnfRead(c.n, c.m, c.ts).clauses)
+         ELSE Models(c.n, AsWrittenAll(OpbOf(c).cons))
 Init == /\ ci = 1 /\ ei = 1 /\ bad = <<>> /\ nev = 0
         /\ mods = IF Len(Cases) >= 1 THEN M0(Cases[1]) ELSE {}
 Step == /\ ci <= Len(Cases) /\ ei <= Len(Case.ev)
